@@ -1,0 +1,247 @@
+//go:build verif
+
+// Contracts for package helpers, read by /verif/govc (contract-based deductive verification).
+// This file contains comments only; it is compiled only with the build tag "verif" and declares nothing.
+package helpers
+
+//@ spec func OccursAt(in []rune, i int, find []rune) bool = 0 <= i && i + len(find) <= len(in) && forall j int :: 0 <= j && j < len(find) ==> in[i+j] == find[j]
+
+// bytesEqual reinterprets the rune slices as bytes through package unsafe; its contract is trusted.
+//@ func bytesEqual(a []rune, b []rune) (eq bool)
+//@   trusted uses unsafe.Slice/unsafe.Pointer; contract states element-wise equality
+//@   pure
+//@   requires len(a) > 0 && len(b) > 0
+//@   ensures eq == (len(a) == len(b) && forall j int :: 0 <= j && j < len(a) ==> a[j] == b[j])
+
+//@ func IndexOf(in []rune, find []rune) (r int)
+//@   props C03
+//@   requires len(find) > 0
+//@   ensures[range] r == -1 || (0 <= r && r <= len(in) - len(find))
+//@   ensures[hit]   r >= 0 ==> OccursAt(in, r, find)
+//@   ensures[first] forall p int :: 0 <= p && (r < 0 || p < r) ==> !OccursAt(in, p, find)
+//@   loop 0:
+//@     invariant 0 <= i
+//@     invariant forall p int :: 0 <= p && p < i ==> !OccursAt(in, p, find)
+//@     decreases end + 1 - i
+//@   canary ensures[canary] r < 0
+
+//@ func StartsWith(in []rune, find []rune) (ok bool)
+//@   props C03
+//@   requires len(find) > 0
+//@   ensures ok == OccursAt(in, 0, find)
+
+//@ func Equals(in []rune, start int, length int, find []rune) (ok bool)
+//@   props C03
+//@   requires 0 <= start && 0 <= length && start + length <= len(in)
+//@   requires len(find) > 0 ==> length > 0
+//@   ensures len(find) == 0 ==> ok
+//@   ensures len(find) > 0 ==> (ok == (length == len(find) && OccursAt(in, start, find)))
+
+//@ func IndexOfAny1(in []rune, find rune) (r int)
+//@   props C03
+//@   ensures -1 <= r && r < len(in)
+//@   ensures r >= 0 ==> in[r] == find
+//@   ensures forall p int :: 0 <= p && p < len(in) && (r < 0 || p < r) ==> in[p] != find
+
+//@ func IndexOfAny2(in []rune, find1 rune, find2 rune) (r int)
+//@   props C03
+//@   ensures -1 <= r && r < len(in)
+//@   ensures r >= 0 ==> (in[r] == find1 || in[r] == find2)
+//@   ensures forall p int :: 0 <= p && p < len(in) && (r < 0 || p < r) ==> in[p] != find1 && in[p] != find2
+//@   loop 0:
+//@     invariant 0 <= i && i <= len(in)
+//@     invariant forall p int :: 0 <= p && p < i ==> in[p] != find1 && in[p] != find2
+//@     decreases len(in) - i
+
+//@ func IndexOfAny3(in []rune, find1 rune, find2 rune, find3 rune) (r int)
+//@   props C03
+//@   ensures -1 <= r && r < len(in)
+//@   ensures r >= 0 ==> (in[r] == find1 || in[r] == find2 || in[r] == find3)
+//@   ensures forall p int :: 0 <= p && p < len(in) && (r < 0 || p < r) ==> in[p] != find1 && in[p] != find2 && in[p] != find3
+//@   loop 0:
+//@     invariant 0 <= i && i <= len(in)
+//@     invariant forall p int :: 0 <= p && p < i ==> in[p] != find1 && in[p] != find2 && in[p] != find3
+//@     decreases len(in) - i
+
+//@ func IndexOfAnyInRange(in []rune, first rune, last rune) (r int)
+//@   props C03
+//@   ensures -1 <= r && r < len(in)
+//@   ensures r >= 0 ==> first <= in[r] && in[r] <= last
+//@   ensures forall p int :: 0 <= p && p < len(in) && (r < 0 || p < r) ==> !(first <= in[p] && in[p] <= last)
+//@   loop 0:
+//@     invariant 0 <= i && i <= len(in)
+//@     invariant forall p int :: 0 <= p && p < i ==> !(first <= in[p] && in[p] <= last)
+//@     decreases len(in) - i
+
+//@ func IndexOfAnyExcept1(in []rune, bad rune) (r int)
+//@   props C03
+//@   ensures -1 <= r && r < len(in)
+//@   ensures r >= 0 ==> in[r] != bad
+//@   ensures forall p int :: 0 <= p && p < len(in) && (r < 0 || p < r) ==> in[p] == bad
+//@   loop 0:
+//@     invariant 0 <= i && i <= len(in)
+//@     invariant forall p int :: 0 <= p && p < i ==> in[p] == bad
+//@     decreases len(in) - i
+
+//@ func IndexOfAnyExcept2(in []rune, bad1 rune, bad2 rune) (r int)
+//@   props C03
+//@   ensures -1 <= r && r < len(in)
+//@   ensures r >= 0 ==> in[r] != bad1 && in[r] != bad2
+//@   ensures forall p int :: 0 <= p && p < len(in) && (r < 0 || p < r) ==> (in[p] == bad1 || in[p] == bad2)
+//@   loop 0:
+//@     invariant 0 <= i && i <= len(in)
+//@     invariant forall p int :: 0 <= p && p < i ==> (in[p] == bad1 || in[p] == bad2)
+//@     decreases len(in) - i
+
+//@ func IndexOfAnyExcept3(in []rune, bad1 rune, bad2 rune, bad3 rune) (r int)
+//@   props C03
+//@   ensures -1 <= r && r < len(in)
+//@   ensures r >= 0 ==> in[r] != bad1 && in[r] != bad2 && in[r] != bad3
+//@   ensures forall p int :: 0 <= p && p < len(in) && (r < 0 || p < r) ==> (in[p] == bad1 || in[p] == bad2 || in[p] == bad3)
+//@   loop 0:
+//@     invariant 0 <= i && i <= len(in)
+//@     invariant forall p int :: 0 <= p && p < i ==> (in[p] == bad1 || in[p] == bad2 || in[p] == bad3)
+//@     decreases len(in) - i
+
+//@ func IndexOfAnyExceptInRange(in []rune, first rune, last rune) (r int)
+//@   props C03
+//@   ensures -1 <= r && r < len(in)
+//@   ensures r >= 0 ==> (in[r] < first || in[r] > last)
+//@   ensures forall p int :: 0 <= p && p < len(in) && (r < 0 || p < r) ==> first <= in[p] && in[p] <= last
+//@   loop 0:
+//@     invariant 0 <= i && i <= len(in)
+//@     invariant forall p int :: 0 <= p && p < i ==> first <= in[p] && in[p] <= last
+//@     decreases len(in) - i
+
+//@ spec func InRunes(s []rune, c rune) bool = exists q int :: 0 <= q && q < len(s) && s[q] == c
+
+//@ func IndexOfAny(in []rune, find []rune) (r int)
+//@   props C03
+//@   ensures -1 <= r && r < len(in)
+//@   ensures r >= 0 ==> InRunes(find, in[r])
+//@   ensures forall p int :: 0 <= p && p < len(in) && (r < 0 || p < r) ==> !InRunes(find, in[p])
+//@   loop 0:
+//@     invariant 0 <= i && i <= len(in)
+//@     invariant forall p int :: 0 <= p && p < i ==> !InRunes(find, in[p])
+//@     decreases len(in) - i
+
+//@ func IndexOfAnyExcept(in []rune, bad []rune) (r int)
+//@   props C03
+//@   ensures -1 <= r && r < len(in)
+//@   ensures r >= 0 ==> !InRunes(bad, in[r])
+//@   ensures forall p int :: 0 <= p && p < len(in) && (r < 0 || p < r) ==> InRunes(bad, in[p])
+//@   loop 0:
+//@     invariant 0 <= i && i <= len(in)
+//@     invariant forall p int :: 0 <= p && p < i ==> InRunes(bad, in[p])
+//@     decreases len(in) - i
+//@   loop 1:
+//@     invariant 0 <= i && i < len(in) && c == in[i]
+//@     invariant -1 <= rangeindex && rangeindex < len(bad)
+//@     invariant forall p int :: 0 <= p && p < i ==> InRunes(bad, in[p])
+//@     invariant forall q int :: 0 <= q && q <= rangeindex ==> bad[q] != c
+//@     decreases len(bad) - rangeindex
+
+// ---- case-insensitive search helpers (C20: prefix fast paths; C03: first-occurrence semantics) ----
+
+//@ spec func CIEq(c rune, f rune) bool = c == f || unicode.ToLower(c) == f
+//@ spec func CIOccursAt(in []rune, i int, find []rune) bool = 0 <= i && i + len(find) <= len(in) && forall j int :: 0 <= j && j < len(find) ==> CIEq(in[i+j], find[j])
+
+//@ func IndexOfIgnoreCase(in []rune, find []rune) (r int)
+//@   props C03 C20
+//@   requires len(find) > 0
+//@   ensures[range] r == -1 || (0 <= r && r <= len(in) - len(find))
+//@   ensures[hit]   r >= 0 ==> CIOccursAt(in, r, find)
+//@   ensures[first] forall p int :: 0 <= p && (r < 0 || p < r) ==> !CIOccursAt(in, p, find)
+//@   loop 0:
+//@     invariant 0 <= i
+//@     invariant forall p int :: 0 <= p && p < i ==> !CIOccursAt(in, p, find)
+//@     decreases end + 1 - i
+//@   loop 1:
+//@     invariant 0 <= i && i <= end && CIEq(in[i], find[0])
+//@     invariant forall p int :: 0 <= p && p < i ==> !CIOccursAt(in, p, find)
+//@     invariant 1 <= j && j <= len(find)
+//@     invariant forall q int :: 0 <= q && q < j ==> CIEq(in[i+q], find[q])
+//@     decreases len(find) - j
+
+//@ func StartsWithIgnoreCase(in []rune, find []rune) (ok bool)
+//@   props C03 C20
+//@   ensures ok == CIOccursAt(in, 0, find)
+//@   loop 0:
+//@     invariant 0 <= i && i <= len(find) && len(find) <= len(in)
+//@     invariant forall q int :: 0 <= q && q < i ==> CIEq(in[q], find[q])
+//@     decreases len(find) - i
+
+//@ func foldASCII(c rune) (r rune)
+//@   props C20
+//@   ensures r == AsciiFold(c)
+//@ spec func AsciiFold(c rune) rune = ite('A' <= c && c <= 'Z', c + 32, c)
+//@ spec func AFOccursAt(in []rune, i int, find []rune) bool = 0 <= i && i + len(find) <= len(in) && forall j int :: 0 <= j && j < len(find) ==> AsciiFold(in[i+j]) == AsciiFold(find[j])
+
+//@ func IndexOfIgnoreCaseAscii(in []rune, find []rune) (r int)
+//@   props C03 C20
+//@   ensures[empty] len(find) == 0 ==> r == 0
+//@   ensures[range] r == -1 || (0 <= r && r <= len(in) - len(find))
+//@   ensures[hit]   r >= 0 ==> AFOccursAt(in, r, find)
+//@   ensures[first] forall p int :: 0 <= p && (r < 0 || p < r) ==> !AFOccursAt(in, p, find)
+//@   loop 0:
+//@     invariant 0 <= i && len(find) > 0
+//@     invariant forall p int :: 0 <= p && p < i ==> !AFOccursAt(in, p, find)
+//@     decreases end + 1 - i
+//@   loop 1:
+//@     invariant 0 <= i && i <= end && len(find) > 0 && AsciiFold(in[i]) == AsciiFold(find[0])
+//@     invariant forall p int :: 0 <= p && p < i ==> !AFOccursAt(in, p, find)
+//@     invariant 1 <= j && j <= len(find)
+//@     invariant forall q int :: 0 <= q && q < j ==> AsciiFold(in[i+q]) == AsciiFold(find[q])
+//@     decreases len(find) - j
+
+//@ func EqualsIgnoreCase(in []rune, start int, length int, find []rune) (ok bool)
+//@   props C20
+//@   requires 0 <= start && 0 <= length && start + length <= len(in) && length == len(find)
+//@   ensures ok == (forall q int :: 0 <= q && q < len(find) ==> (in[start+q] == find[q] || unicode.ToLower(in[start+q]) == unicode.ToLower(find[q])))
+//@   loop 0:
+//@     invariant 0 <= j && j <= len(find)
+//@     invariant forall q int :: 0 <= q && q < j ==> (in[start+q] == find[q] || unicode.ToLower(in[start+q]) == unicode.ToLower(find[q]))
+//@     decreases len(find) - j
+
+// ---- backwards searches (right-to-left finders) ----
+
+//@ func LastIndexOf(in []rune, find []rune) (r int)
+//@   props C03 C15
+//@   requires len(find) > 0
+//@   ensures[range] r == -1 || (0 <= r && r <= len(in) - len(find))
+//@   ensures[hit]   r >= 0 ==> OccursAt(in, r, find)
+//@   ensures[last]  forall p int :: p > r && p >= 0 ==> !OccursAt(in, p, find)
+//@   loop 0:
+//@     invariant i <= end
+//@     invariant forall p int :: p > i && p >= 0 ==> !OccursAt(in, p, find)
+//@     decreases i + 1
+
+//@ func LastIndexOfAny1(in []rune, find rune) (r int)
+//@   props C03 C15
+//@   ensures -1 <= r && r < len(in)
+//@   ensures r >= 0 ==> in[r] == find
+//@   ensures forall p int :: r < p && p < len(in) && 0 <= p ==> in[p] != find
+//@   loop 0:
+//@     invariant -1 <= i && i < len(in)
+//@     invariant forall p int :: i < p && p < len(in) ==> in[p] != find
+//@     decreases i + 1
+
+//@ func LastIndexOfAnyExcept1(in []rune, not rune) (r int)
+//@   props C03 C15
+//@   ensures -1 <= r && r < len(in)
+//@   ensures r >= 0 ==> in[r] != not
+//@   ensures forall p int :: r < p && p < len(in) && 0 <= p ==> in[p] == not
+//@   loop 0:
+//@     invariant -1 <= i && i < len(in)
+//@     invariant forall p int :: i < p && p < len(in) ==> in[p] == not
+//@     decreases i + 1
+
+//@ func LastIndexOfAnyInRange(in []rune, first rune, last rune) (r int)
+//@   props C03 C15
+//@   ensures -1 <= r && r < len(in)
+//@   ensures r >= 0 ==> first <= in[r] && in[r] <= last
+//@   ensures forall p int :: r < p && p < len(in) && 0 <= p ==> !(first <= in[p] && in[p] <= last)
+//@   loop 0:
+//@     invariant -1 <= i && i < len(in)
+//@     invariant forall p int :: i < p && p < len(in) ==> !(first <= in[p] && in[p] <= last)
+//@     decreases i + 1
